@@ -38,6 +38,30 @@ CLAIMED = {
    note='Trusted: rustc MIR, extractor, engines; petgraph API contracts for add_node/add_edge/edge_weight_mut (they do not remove or relabel).',
    technique='static analysis: who-may-call/effect rule on &mut Graph receivers, path counting on the loop CFG, symbolic save/restore',
    ref='DESIGN.md section 2, C16'),
+
+ 'C08': dict(level='proof',
+   text='(EF-1, proved) A search cannot change a matcher: for ShiftAnd, BNDM, BOM, Horspool and KMP find_all takes &self, the '
+        'types are Freeze, the iterator state is a fresh aggregate and no reachable body touches mutable/non-Freeze statics, so '
+        'answers cannot depend on earlier searches. (PO-1) Every MIR Assert (bounds, overflow, shift, division) and may-panic std '
+        'call in the five matcher modules is either discharged automatically by an interval analysis that uses the private-field '
+        'invariant m <= 64 established at all struct-literal sites (this is what decides the documented 64-symbol limit: the '
+        'checks found and now guard two genuine word-width defects, fixed in /repo), or matches an audited entry with a proof '
+        'sketch. Completeness/soundness of the skipping logic for periodic patterns is NOT decided.',
+   note='Trusted: rustc MIR (dev profile, overflow checks explicit), extractor, interval engine, and the audited table in '
+        'rules/c08.py (manual proof sketches keyed by function/kind/normalised operands; any change of that arithmetic must '
+        'be re-audited and is reported until then). Non-empty patterns assumed (quantifier of C08).',
+   technique='static analysis: effect/Freeze analysis + interval abstract interpretation of panic obligations over rustc MIR',
+   ref='DESIGN.md section 2, C08'),
+ 'C13': dict(level='other',
+   text='Necessary-condition rules decided on the MIR: (EF-4) the GFF serialiser traverses the attribute multimap only with '
+        'all-values APIs (first-value-only MultiMap::iter/get are forbidden) - found and fixed a genuine loss of multi-valued '
+        'attributes; (VD-1) the Option returned by Phase::validate is examined in the deserialiser so out-of-range phases become '
+        'errors - found and fixed a silent coercion; (TB-4) reader and writer take separators from the same GffType::separator '
+        'table, csv delimiter TAB and comment # agree on both sides of BED and GFF, regex named groups match the indexes used. '
+        'Field-for-field equality through the external csv/serde layers is NOT decided.',
+   note='Trusted: rustc MIR, extractor; multimap API contract (iter = first value per key; iter_all/flat_iter/get_vec = all values); csv builder semantics.',
+   technique='static analysis: forbidden-callee / validator-discipline / table-agreement rules over resolved callees in rustc MIR',
+   ref='DESIGN.md section 2, C13'),
 }
 
 NOT_BUILT = 'rule not built yet (see DESIGN.md section 6)'
